@@ -99,6 +99,10 @@ func rexpr(e N) string {
 		switch o["k"] {
 		case "var", "bool", "group", "call", "exists":
 			return "!" + rexpr(o)
+		case "not":
+			if t, _ := e["tight"].(bool); t { // lean spelling: !!x
+				return "!" + rexpr(o)
+			}
 		}
 		return "!(" + rexpr(o) + ")"
 	case "group":
@@ -146,11 +150,18 @@ func rexpr(e N) string {
 	case "bin", "cmp", "logic":
 		p := prec(e)
 		l, r := rexpr(e["l"].(N)), rexpr(e["r"].(N))
-		if lp := prec(e["l"].(N)); lp < p || (lp == p && p == 3) {
+		tight, _ := e["tight"].(bool)
+		if lp := prec(e["l"].(N)); lp < p || (lp == p && p == 3 && !tight) {
 			l = "(" + l + ")"
 		}
 		if rp := prec(e["r"].(N)); rp <= p {
 			r = "(" + r + ")"
+		}
+		if tight { // lean spelling: no blanks around the operator (kept in front of a minus sign: a--1 and a<-1 are other tokens)
+			if strings.HasPrefix(r, "-") {
+				return l + e["op"].(string) + " " + r
+			}
+			return l + e["op"].(string) + r
 		}
 		return l + " " + e["op"].(string) + " " + r
 	case "rawtext": // verbatim source text, used by the static families to plug arbitrary operand spellings
